@@ -217,25 +217,90 @@ func respPairs(v t38.Value) (map[string]string, []string, bool) {
 	return m, order, true
 }
 
-func fieldsAgree(rv map[string]string, jf map[string]any) string {
-	for k, j := range jf {
-		if isZeroField(j) {
-			if d, ok := rv[k]; ok && d != "0" {
-				return fmt.Sprintf("field %q: JSON 0, RESP %q", k, d)
+// respFieldPairs reads a field list [name, value, ...]. Names are compared
+// the way JSON can carry them (invalid UTF-8 -> U+FFFD), so two different
+// byte strings may collapse into one name: values are kept as lists.
+func respFieldPairs(v t38.Value) (map[string][]string, bool) {
+	if v.Kind != '*' || v.Null || len(v.Arr)%2 != 0 {
+		return nil, false
+	}
+	m := map[string][]string{}
+	seen := map[string]bool{}
+	for i := 0; i+1 < len(v.Arr); i += 2 {
+		if v.Arr[i].Kind != '$' || v.Arr[i+1].Kind != '$' {
+			return nil, false
+		}
+		if seen[v.Arr[i].Str] {
+			return nil, false // the same field twice
+		}
+		seen[v.Arr[i].Str] = true
+		k := lossy(v.Arr[i].Str)
+		m[k] = append(m[k], v.Arr[i+1].Str)
+	}
+	return m, true
+}
+
+// fieldsAgree compares RESP name/value pairs with JSON name -> values.
+// Zero-valued fields may be absent on either side. Where names collapsed
+// (several values under one lossy name) every non-zero value of one side
+// must have a counterpart on the other.
+func fieldsAgree(rv map[string][]string, jf map[string][]any) string {
+	names := map[string]bool{}
+	for k := range rv {
+		names[k] = true
+	}
+	for k := range jf {
+		names[k] = true
+	}
+	for k := range names {
+		var rs []string
+		for _, d := range rv[k] {
+			if d != "0" {
+				rs = append(rs, d)
+			}
+		}
+		var js []any
+		for _, j := range jf[k] {
+			if !isZeroField(j) {
+				js = append(js, j)
+			}
+		}
+		if len(rv[k]) <= 1 && len(jf[k]) <= 1 {
+			switch {
+			case len(rs) == 0 && len(js) == 0:
+			case len(rs) == 1 && len(js) == 1:
+				if !fieldAgree(rs[0], js[0]) {
+					return fmt.Sprintf("field %q differs: RESP %q, JSON %v", k, rs[0], js[0])
+				}
+			case len(rs) == 1:
+				return fmt.Sprintf("field %q (RESP %q) missing in JSON %v", k, rs[0], jf)
+			default:
+				return fmt.Sprintf("field %q (JSON %v) missing in RESP %v", k, js[0], rv)
 			}
 			continue
 		}
-		d, ok := rv[k]
-		if !ok {
-			return fmt.Sprintf("field %q (JSON %v) missing in RESP %v", k, j, rv)
+		// collapsed names: a JSON object keeps only one member per name, so
+		// only require that what JSON shows exists in RESP, and — when JSON
+		// keeps a list (search replies) — the converse
+		for _, j := range js {
+			found := false
+			for _, d := range rs {
+				found = found || fieldAgree(d, j)
+			}
+			if !found {
+				return fmt.Sprintf("field %q: JSON value %v has no RESP counterpart in %q", k, j, rs)
+			}
 		}
-		if !fieldAgree(d, j) {
-			return fmt.Sprintf("field %q differs: RESP %q, JSON %v", k, d, j)
-		}
-	}
-	for k, d := range rv {
-		if _, ok := jf[k]; !ok && d != "0" {
-			return fmt.Sprintf("field %q (RESP %q) missing in JSON %v", k, d, jf)
+		if len(jf[k]) > 1 {
+			for _, d := range rs {
+				found := false
+				for _, j := range js {
+					found = found || fieldAgree(d, j)
+				}
+				if !found {
+					return fmt.Sprintf("field %q: RESP value %q has no JSON counterpart in %v", k, d, js)
+				}
+			}
 		}
 	}
 	return ""
@@ -383,16 +448,16 @@ func itemAgree(kind string, it t38.Value, j any, names []string) string {
 	rest := it.Arr[2:]
 	allowed := 2 // id + payload
 	// fields
-	rf := map[string]string{}
+	rf := map[string][]string{}
 	if len(rest) > 0 && rest[0].Kind == '*' {
 		var ok bool
-		rf, _, ok = respPairs(rest[0])
+		rf, ok = respFieldPairs(rest[0])
 		if !ok {
 			return fmt.Sprintf("RESP field list malformed: %s", rest[0])
 		}
 		rest = rest[1:]
 	}
-	jf := map[string]any{}
+	jf := map[string][]any{}
 	if fa, has := m["fields"]; has {
 		allowed++
 		arr, ok := fa.([]any)
@@ -400,7 +465,7 @@ func itemAgree(kind string, it t38.Value, j any, names []string) string {
 			return fmt.Sprintf("JSON entry has %v as fields for the field names %q", fa, names)
 		}
 		for i, n := range names {
-			jf[n] = arr[i]
+			jf[n] = append(jf[n], arr[i])
 		}
 	}
 	if d := fieldsAgree(rf, jf); d != "" {
@@ -818,27 +883,29 @@ func agree(args []string, v t38.Value, r t38.JSONReply, tnt *taint) (outcome, di
 	case "get", "set", "fset":
 		withfields := hasToken(in, 3, "withfields")
 		payload := v
-		var rf map[string]string
+		var rf map[string][]string
 		if withfields && (name == "get" || hasToken(in, 3, "return")) {
 			if v.Kind != '*' || v.Null || len(v.Arr) < 1 || len(v.Arr) > 2 {
 				return "ok", fmt.Sprintf("WITHFIELDS reply is not [value (fields)]: %s", v)
 			}
 			payload = v.Arr[0]
-			rf = map[string]string{}
+			rf = map[string][]string{}
 			if len(v.Arr) == 2 {
 				var ok bool
-				if rf, _, ok = respPairs(v.Arr[1]); !ok {
+				if rf, ok = respFieldPairs(v.Arr[1]); !ok {
 					return "ok", fmt.Sprintf("RESP field list malformed: %s", v.Arr[1])
 				}
 			}
 		}
-		jf := map[string]any{}
+		jf := map[string][]any{}
 		if f, has := top["fields"]; has {
 			m, ok := f.(map[string]any)
 			if !ok {
 				return "ok", "JSON fields member is not an object"
 			}
-			jf = m
+			for k, j := range m {
+				jf[k] = []any{j}
+			}
 			delete(top, "fields")
 			if rf == nil {
 				return "ok", fmt.Sprintf("JSON has fields but RESP reply %s carries none", v)
